@@ -109,7 +109,7 @@ def replay_test(repo, module_file, test_text):
     finally:
         shutil.rmtree(scratch, ignore_errors=True)
 
-def run(repo, harnesses, only_files=None, timeout=1800, jobs=8, extra_args=None, want_playback=None):
+def run(repo, harnesses, only_files=None, timeout=1800, jobs=8, extra_args=None, want_playback=None, harness_timeout=None):
     """harnesses: list of harness function names. Returns dict name -> {status, time_s, detail}, plus '_log'."""
     res = {}
     t0 = time.time()
@@ -120,7 +120,7 @@ def run(repo, harnesses, only_files=None, timeout=1800, jobs=8, extra_args=None,
     try:
         # resource guards: a change to the crate can make a harness explode (38 GB seen); a harness that hits the per-harness
         # timeout or the address-space limit is reported as "did not run" (UNDECIDED), never as a violation
-        hto = os.environ.get("VERIF_KANI_HARNESS_TIMEOUT", "900s")
+        hto = harness_timeout or os.environ.get("VERIF_KANI_HARNESS_TIMEOUT", "900s")
         cmd = _base_cmd() + ["-j", str(jobs), "-Z", "unstable-options", "--harness-timeout", hto]
         for h in harnesses: cmd += ["--harness", h]
         if extra_args: cmd += extra_args
